@@ -121,8 +121,8 @@ class SeqRun:
                 res = json.loads(line[10:])
         if res is None:
             # crashed or sanitizer abort: that is a violation of memory safety / UB on some enumerated case
-            os.makedirs('replays/' + pid, exist_ok=True)
-            path = 'replays/%s/%s.crash.txt' % (pid, self.bin)
+            rd = os.environ.get('VERIF_REPLAY_DIR', 'replays'); os.makedirs(rd + '/' + pid, exist_ok=True)
+            path = '%s/%s/%s.crash.txt' % (rd, pid, self.bin)
             with open(path, 'w') as f:
                 f.write('command: %s\nexit: %d\n--- stderr ---\n%s\n--- stdout tail ---\n%s\n' % (' '.join(cmd), p.returncode, p.stderr[-8000:], p.stdout[-2000:]))
             first = ''
